@@ -265,14 +265,14 @@ def table_roundtrip(sym, fmt):
 
 LINES = ['plain', 'trailing space ', 'tab\tinside', 'trailing tab\t', '', ' leading', 'é€\U0001F600', '{"json":[1,2]}', 'a,b,"c"', 'back\\slash']
 
-@obligation('C12','disk_roundtrip', bounds="3 lines from a 10-line vocabulary (trailing/leading blanks, tabs, empty line, non-ASCII, json, csv, backslash) written with DiskSink (all at once or one write per line) and read back with DiskSource, plain and .gz",
-            functions=FUNCS, params=lambda tier: [dict(gz=g, batch=b) for g in (False,True) for b in ('once','each')], classify=_classify)
-def disk_roundtrip(sym, gz, batch):
+@obligation('C12','disk_roundtrip', bounds="3 lines from a 10-line vocabulary (trailing/leading blanks, tabs, empty line, non-ASCII, json, csv, backslash) written with DiskSink (all at once or one write per line; DiskSink batch size None,1,2,3) and read back with DiskSource, plain and .gz",
+            functions=FUNCS, params=lambda tier: [dict(gz=g, batch=b, size=z) for g in (False,True) for b in ('once','each') for z in (None,1,2,3)], classify=_classify)
+def disk_roundtrip(sym, gz, batch, size=None):
     lines = [LINES[unwrap(sym.int(f'l{i}', 0, len(LINES)-1))] for i in range(3)]
     d = tempfile.mkdtemp(prefix='c12_d_')
     try:
         f = os.path.join(d, 'x.log.gz' if gz else 'x.log')
-        sink = DiskSink(f)
+        sink = DiskSink(f) if size is None else DiskSink(f, batch=size)
         if batch == 'once': sink.write(lines)
         else:
             for l in lines: sink.write(l)
